@@ -102,6 +102,13 @@ func discharge(results []*FuncResult, workers int, timeoutMs int, seed int, keep
 					if si > 0 {
 						tmo = timeoutMs / 2
 					}
+					if j.o.Cover {
+						// a cover goal only looks for a contradiction in the assumptions
+						if si > 0 {
+							break
+						}
+						tmo = 1500
+					}
 					r, out, dt := runSolver(sp, file, tmo)
 					v.TimeS += dt
 					outs = append(outs, fmt.Sprintf("--- %s: %s (%.2fs)\n%s", sp.name, r, dt, truncate(out, 2000)))
@@ -134,9 +141,12 @@ func discharge(results []*FuncResult, workers int, timeoutMs int, seed int, keep
 						status = "undecided"
 					}
 				}
+				if j.o.Cover && status == "undecided" {
+					status = "cover-unknown"
+				}
 				v.Status = status
 				v.Output = strings.Join(outs, "\n")
-				if status != "discharged" && status != "cover-ok" && keepDir != "" {
+				if status != "discharged" && status != "cover-ok" && status != "cover-unknown" && keepDir != "" {
 					mu.Lock()
 					os.MkdirAll(keepDir, 0o755)
 					dst := filepath.Join(keepDir, sanitize(j.o.Name)+".smt2")
